@@ -25,9 +25,7 @@ U = 1024
 
 def gen_cfg(rng):
     H, W = rng.choice([(64, 64), (64, 96), (96, 64), (80, 96)])
-    mh, mw = rng.choice([(0, 0), (0, 0), (96, 96)])
-    if mh and (mh < H or mw < W):
-        mh, mw = 0, 0
+    mh, mw = rng.choice([(0, 0), (0, 0), (96, 96), (112, 128), (48, 64), (0, 112)])   # none, larger, smaller than the image, one-sided
     sn, sd = rng.choice([(1, 1), (1, 1), (1, 2)])
     return dict(H=H, W=W, maxH=mh, maxW=mw, sn=sn, sd=sd, ms=rng.choice([8, 16]), s=rng.choice([1, 2, 4]), ps=rng.choice([1, 2, 4]),
                 refine=rng.choice([None, "integral"]), batch=rng.choice([1, 2, 3]), n_nodes=rng.choice([2, 3, 3, 4, 4, 5, 6]))
